@@ -367,7 +367,7 @@ func c20One(c *fw.Ctx, id string, i int, pool []string, exe string) {
 	if scenario != "parsedir-unedited" && i%3 == 1 {
 		dir := filepath.Dir(spec.Files[0])
 		fn := filepath.Join(dir, "zz_typeonly.go")
-		src := []byte("package gen\n\nimport (\n\t\"cmp\"\n\t\"io\"\n\t\"os\"\n\t\"sort\"\n\t\"strings\"\n)\n\ntype Sorted[T cmp.Ordered] []T\n\ntype W struct {\n\tio.Writer\n\tb *strings.Builder\n}\n\nvar _ sort.Interface\n\n// qualified identifiers that end an expression and carry comments of their own\nvar zzList = []interface{}{\n\tos.DevNull, // nothing to read\n\tos.Args,    /* block */\n\t// own line\n\tos.Stdin,\n}\n\nfunc zzCall() {\n\tprintln(os.DevNull, // trailing\n\t\tos. // after the dot\n\t\t\tArgs)\n}\n")
+		src := []byte("package gen\n\nimport (\n\t\"cmp\"\n\t\"io\"\n\t\"os\"\n\t\"sort\"\n\t\"strings\"\n)\n\ntype Sorted[T cmp.Ordered] []T\n\ntype W struct {\n\tio.Writer\n\tb *strings.Builder\n}\n\nvar _ sort.Interface\n\n// qualified identifiers that end an expression and carry comments of their own\nvar zzList = []interface{}{\n\tos.DevNull, // nothing to read\n\tos.Args,    /* block */\n\t// own line\n\tos.Stdin,\n}\n\nfunc zzCall() {\n\tprintln(os.DevNull, // trailing\n\t\tos. // after the dot\n\t\t\tArgs)\n}\n\nfunc zzCall2() {\n\tprintln(\n\t\tos.Stdout,\n\t\t// os.Stderr,\n\t)\n\t_ = []*os.File{\n\t\tos.Stdin,\n\t\t// os.Stdout,\n\t}\n}\n")
 		os.WriteFile(fn, src, 0644)
 		orig[fn] = src
 		spec.Files = append(spec.Files, fn)
